@@ -294,28 +294,59 @@ def r_frontend_no_sink(ctx, repo, universes):
 
 
 def r_unsafe_only_in_unsafe(ctx, repo, universes):
-    rule = ctx.rule('R-UNSAFE-FLAG', 'every `unsafe` parameter defaults to the constant False, and no class in the MRO of a '
-                                     'confined universe passes unsafe=True')
+    """the `unsafe` switch can only be False inside a confined universe: a default, where there is one, is the constant
+    False, and every call that binds the parameter - by keyword or by position - passes the constant False or forwards the
+    caller's own `unsafe` parameter."""
+    rule = ctx.rule('R-UNSAFE-FLAG', 'every `unsafe` parameter defaults to the constant False (or has no default), and no class in '
+                                     'the MRO of a confined universe binds it, by keyword or position, to anything but False / '
+                                     'its own unsafe parameter')
     for q in universes:
         cls = repo.cls(q)
+        methods = {}
+        for k in reversed(cls.mro_classes()):
+            for name, f in k.methods.items():
+                methods[name] = f
+        flagged = {name: f for name, f in methods.items() if 'unsafe' in f.params}
+        for name, f in flagged.items():
+            dv = f.defaults().get('unsafe')
+            if dv is None or (isinstance(dv, ast.Constant) and dv.value is False):
+                rule.ok(f.loc(), '%s: unsafe %s' % (f.qualname, 'defaults to False' if dv is not None else 'has no default'))
+            else:
+                rule.fail('%s|default' % f.qualname, f.module.rel, f.node.lineno, f.qualname, 'unsafe=%s' % norm(dv),
+                          'the unsafe switch of %s does not default to False' % f.qualname, universe=q)
         for k in cls.mro_classes():
             for f in k.methods.values():
-                d = f.defaults()
-                if 'unsafe' in f.params:
-                    dv = d.get('unsafe')
-                    if isinstance(dv, ast.Constant) and dv.value is False:
-                        rule.ok(f.loc(), '%s: unsafe=False by default' % f.qualname)
-                    else:
-                        rule.fail('%s|default' % f.qualname, f.module.rel, f.node.lineno, f.qualname,
-                                  'unsafe=%s' % (norm(dv) if dv is not None else '<required>'),
-                                  'the unsafe switch of %s does not default to False' % f.qualname, universe=q)
+                own = 'unsafe' in f.params
                 for c in A.func_calls(f.node):
+                    callee = None
+                    shift = 0
+                    if isinstance(c.func, ast.Attribute) and c.func.attr in flagged:
+                        callee = flagged[c.func.attr]
+                        # bound call (self.m(...)): the receiver fills the first parameter; Class.m(self, ...) does not
+                        recv = c.func.value
+                        shift = 0 if (isinstance(recv, ast.Name) and repo.resolve_name(f.module, recv.id) is not None
+                                      and repo.resolve_name(f.module, recv.id).kind == 'class') else 1
+                    elif isinstance(c.func, ast.Name) and c.func.id in {g.name for g in flagged.values() if g.cls is None}:
+                        callee = [g for g in flagged.values() if g.name == c.func.id][0]
+                    if callee is None:
+                        continue
+                    idx = callee.params.index('unsafe') - shift
+                    bound = None
                     for kw in c.keywords:
-                        if kw.arg == 'unsafe' and not (isinstance(kw.value, ast.Constant) and kw.value.value is False) \
-                                and not (isinstance(kw.value, ast.Name) and kw.value.id == 'unsafe'):
-                            rule.fail('%s|passes|%s' % (f.qualname, norm(c)[:60]), f.module.rel, c.lineno, f.qualname,
-                                      norm(c)[:80], '%s (in the MRO of %s) passes unsafe=%s'
-                                      % (f.qualname, q, norm(kw.value)), universe=q)
+                        if kw.arg == 'unsafe':
+                            bound = kw.value
+                    if bound is None and 0 <= idx < len(c.args) and not any(isinstance(a, ast.Starred) for a in c.args[:idx + 1]):
+                        bound = c.args[idx]
+                    if bound is None:
+                        continue
+                    ok = (isinstance(bound, ast.Constant) and bound.value is False) or \
+                        (own and isinstance(bound, ast.Name) and bound.id == 'unsafe')
+                    if ok:
+                        rule.ok(f.loc(c), '%s binds unsafe of %s to %s' % (f.name, callee.name, norm(bound)))
+                    else:
+                        rule.fail('%s|passes|%s' % (f.qualname, A.anon_text(c, f.node, 60)), f.module.rel, c.lineno, f.qualname,
+                                  norm(c)[:80], '%s (in the MRO of %s) binds the unsafe switch of %s to %s'
+                                  % (f.qualname, q, callee.name, norm(bound)), universe=q)
     return rule
 
 
